@@ -1,1 +1,126 @@
+(* C07/Properties.v — property theorems only: statement, `exact`, Print Assumptions. *)
+From Coq Require Import ZArith List Bool.
 From C07 Require Import Generated Model Proofs.
+Import ListNotations.
+Open Scope Z_scope.
+
+(* the structural facts of klongpy/autograd.py and klongpy/dyads.py as the translator read them *)
+Definition src : srcflags :=
+  mkFlags ng_input_conversion_copies ng_restore_in_finally nj_writes_private_copies
+          grad_func_restores_in_finally mg_restores_in_finally mj_restores_in_finally.
+
+(* The property, at full strength: for every gradient form, on either backend,
+   for EVERY differentiated function (any behaviour at any call: raise, vector,
+   non-number), every initial store and heap, whether the operator returns or
+   fails: every variable is bound to what it was bound to (same object, same
+   kind, same requires_grad) and every array buffer that existed has its
+   contents and dtype. *)
+Definition C07_full_statement (fl : srcflags) : Prop :=
+  forall autograd O fm s0 lg r s',
+    run_form fl autograd O fm (mkSt s0 lg) = (r, s') -> store_preserved s0 (sto s').
+
+Theorem C07_restore : C07_full_statement src.
+Proof.
+  exact (fun autograd O fm s0 lg r s' =>
+           restore_full src autograd O fm s0 lg r s' (eq_refl : restores_in_finally src = true)
+                        (eq_refl : ng_copies_input src = true)).
+Qed.
+Print Assumptions C07_restore.
+
+(* Independent of how numeric_grad converts its input: the statement holds on
+   every input outside the alias class (numeric path and the parameter is an
+   array / tensor over a float64 buffer). *)
+Theorem C07_restore_outside_alias : forall copies fin autograd O fm s0 lg r s',
+  let fl := mkFlags copies fin nj_writes_private_copies grad_func_restores_in_finally
+                    mg_restores_in_finally mj_restores_in_finally in
+  safe_form s0 fl autograd fm ->
+  run_form fl autograd O fm (mkSt s0 lg) = (r, s') -> store_preserved s0 (sto s').
+Proof.
+  exact (fun copies fin autograd O fm s0 lg r s' =>
+           restore_outside_alias
+             (mkFlags copies fin nj_writes_private_copies grad_func_restores_in_finally
+                      mg_restores_in_finally mj_restores_in_finally)
+             autograd O fm s0 lg r s'
+             (eq_refl : restores_in_finally
+                          (mkFlags copies fin nj_writes_private_copies grad_func_restores_in_finally
+                                   mg_restores_in_finally mj_restores_in_finally) = true)).
+Qed.
+Print Assumptions C07_restore_outside_alias.
+
+(* evaluating the same function afterwards returns what it returned before *)
+Theorem C07_again : forall autograd O fm s0 lg r s' f,
+  reads_only_visible f ->
+  run_form src autograd O fm (mkSt s0 lg) = (r, s') -> f (sto s') = f s0.
+Proof.
+  exact (fun autograd O fm s0 lg r s' f Hf Hrun => Hf s0 (sto s') (C07_restore autograd O fm s0 lg r s' Hrun)).
+Qed.
+Print Assumptions C07_again.
+
+(* R4 (DESIGN section 0): with np.asarray (no copy) and the restore outside a
+   finally — the pinned tree — the full statement is false: p = [1.0 2.0 3.0]
+   (float64), f raises at its 3rd evaluation, f:>p leaves p = [1.0 2.0+eps 3.0]. *)
+Definition r4_store : store :=
+  mkStore [(1, VArr 0%nat)] [mkCell DF64 [3] [mkNum false 10 []; mkNum false 20 []; mkNum false 30 []]].
+Definition r4_oracle : oracle := fun k _ _ => if Nat.eqb k 2 then FRaise 7 else FRet RScalar.
+Definition pinned_flags : srcflags := mkFlags false false true true true true.
+
+Theorem C07_alias_refuted :
+  exists O fm r s',
+    run_form pinned_flags false O fm (mkSt r4_store []) = (r, s') /\
+    r = Err (ERaise 7) /\
+    nth_error (heap (sto s')) 0 =
+      Some (mkCell DF64 [3] [mkNum false 10 []; mkNum false 20 [true]; mkNum false 30 []]).
+Proof. exists r4_oracle, (FGradVar 1). eexists. eexists. split; [vm_compute; reflexivity|]. split; reflexivity. Qed.
+
+Theorem C07_full_statement_refuted_on_pinned_tree : ~ C07_full_statement pinned_flags.
+Proof.
+  intros H.
+  destruct (run_form pinned_flags false r4_oracle (FGradVar 1) (mkSt r4_store [])) as [r s'] eqn:E.
+  pose proof (H false r4_oracle (FGradVar 1) r4_store [] r s' E) as [_ [ext Hh]].
+  vm_compute in E. inversion E. subst s'. simpl in Hh. discriminate Hh.
+Qed.
+
+(* the same class through the other two numeric entry points *)
+Theorem C07_alias_refuted_nabla_and_multi :
+  (exists r s', run_form pinned_flags false r4_oracle (FNablaSym 1) (mkSt r4_store []) = (r, s') /\
+                nth_error (heap (sto s')) 0 <> nth_error (heap r4_store) 0) /\
+  (exists r s', run_form pinned_flags false r4_oracle (FGradMulti [1]) (mkSt r4_store []) = (r, s') /\
+                nth_error (heap (sto s')) 0 <> nth_error (heap r4_store) 0).
+Proof. split; eexists; eexists; (split; [vm_compute; reflexivity | discriminate]). Qed.
+
+(* What each `finally` is for: without it the rebinding of the user's variable
+   survives a failing evaluation (p stays bound to the perturbed copy / the tracking tensor). *)
+Definition int_store : store :=
+  mkStore [(1, VArr 0%nat); (2, VInt 5)] [mkCell DInt [2] [mkNum true 1 []; mkNum true 2 []]].
+Definition fail_first : oracle := fun k _ _ => if Nat.eqb k 0 then FRaise 7 else FRet RScalar.
+
+Theorem C07_refuted_without_finally :
+  (exists r s', run_form (mkFlags true false true false true true) false fail_first (FNablaSym 1) (mkSt int_store []) = (r, s')
+                /\ lookup 1 (vars (sto s')) <> lookup 1 (vars int_store)) /\
+  (exists r s', run_form (mkFlags true false true true false true) true fail_first (FGradMulti [1; 2]) (mkSt int_store []) = (r, s')
+                /\ lookup 2 (vars (sto s')) = Some (VTen 2%nat true)) /\
+  (exists r s', run_form (mkFlags true false true true true false) false fail_first (FJacMulti [1; 2]) (mkSt int_store []) = (r, s')
+                /\ lookup 1 (vars (sto s')) <> lookup 1 (vars int_store)).
+Proof.
+  split; [|split]; eexists; eexists; (split; [vm_compute; reflexivity|]); try discriminate; reflexivity.
+Qed.
+
+(* Non-vacuity: a failing run of each kind exists and is covered by the theorems. *)
+Example C07_example_failing_runs :
+  let fl := mkFlags true false true true true true in
+  (exists s', run_form fl false r4_oracle (FGradVar 1) (mkSt r4_store []) = (Err (ERaise 7), s') /\ length (log s') = 3%nat) /\
+  (exists s', run_form fl false (fun _ _ _ => FRet (RArr 2)) (FNablaSym 1) (mkSt int_store []) = (Err ENonScalar, s')) /\
+  (exists s', run_form fl true (fun _ _ _ => FRet (RTen 1 true)) (FGradMulti [1; 2]) (mkSt int_store []) = (Ok tt, s')
+              /\ exists st1, nth_error (log s') 0 = Some ([], st1) /\ lookup 2 (vars st1) = Some (VTen 2%nat true)) /\
+  (exists s', run_form fl false (fun _ _ _ => FRet RScalar) (FJacMulti [1; 9]) (mkSt int_store []) = (Err (EKey 9), s')).
+Proof.
+  cbv zeta. split; [|split; [|split]].
+  - eexists. split; vm_compute; reflexivity.
+  - eexists. vm_compute. reflexivity.
+  - eexists. split; [vm_compute; reflexivity|]. eexists. split; vm_compute; reflexivity.
+  - eexists. vm_compute. reflexivity.
+Qed.
+
+Example C07_example_reads_only_visible :
+  reads_only_visible (fun s => match lookup 2 (vars s) with Some (VInt 5) => FRaise 1 | _ => FRet RScalar end).
+Proof. intros s s' [Hv _]. now rewrite Hv. Qed.
